@@ -22,6 +22,10 @@ cp /verif/known_findings.txt $MH/root/
 rm -rf $MH/root/replays
 FEATURES=""; case "$ID" in C29) FEATURES="--features vectors";; esac
 ( cd $MH/harness && CARGO_NET_OFFLINE=true cargo build --release --bin check $FEATURES ) > $MH/build.log 2>&1 || { echo "mutant build failed"; tail -20 $MH/build.log; git -C $MR checkout -q -- .; exit 2; }
+if [ "$ID" = C25 ]; then
+  ( CARGO_NET_OFFLINE=true cargo build --release --offline --manifest-path $MR/Cargo.toml -p searchlite-cli --target-dir $MH/target/repo-bins ) >> $MH/build.log 2>&1 || { echo "mutant CLI build failed"; tail -20 $MH/build.log; git -C $MR checkout -q -- .; exit 2; }
+  export VERIF_CLI_BIN=$MH/target/repo-bins/release/searchlite-cli
+fi
 VERIF_ROOT=$MH/root VERIF_REPO=$MR $MH/target/release/check "$ID" "$@"
 rc=$?
 git -C $MR checkout -q -- . ; git -C $MR clean -fdq -- searchlite-core searchlite-http searchlite-ffi searchlite-cli
